@@ -53,6 +53,19 @@ def run(pid, tier, seed, t0, emits, level_rule):
             samples += summ["samples"][:2]
             nontriv += nontrivial_relate(res["cases_path"]) + summ["extra"].get("coordpos_cases", 0)
             os.remove(res["cases_path"])
+    # further families with exact expectations that do not come from the catalogue
+    more = [("relpert", "Gen_RelPert", dict(SeedLo=1 + 300 * (seed % 7), SeedHi=(150 if tier == "quick" else 1500) + 300 * (seed % 7)), ["SignsStructural"])]
+    if pid == "C02":
+        st = 8 if tier == "quick" else 1
+        more.append(("segments", "Gen_Segments", dict(K=3, Stride=st, Offset=seed % st), ["RelLaws"]))
+    for name, module, consts, invs in more:
+        res, n, mism, summ = vf.gen_and_replay("%s_%s" % (pid, name), module, consts, [pid], seed, invariants=invs, timeout=3000 if tier == "thorough" else 900)
+        runs.append(res)
+        ncases += n
+        nontriv += n
+        mism_all += mism
+        vf.merge_counts(passc, summ["pass"]); vf.merge_counts(failc, summ["fail"]); vf.merge_counts(extra, summ["extra"])
+        os.remove(res["cases_path"])
     # pinned cases of known findings (exact inputs; see findings/known_findings.jsonl)
     pinned = os.path.join(vf.VERIF, "findings", "pinned_cases.ndjson")
     if pid == "C01" and os.path.exists(pinned):
